@@ -187,7 +187,9 @@ Section Gates.
   Lemma step_inv : forall st g o, inv st g -> inv (next_state st o) (ghost_step c g (row_of st o)).
   Proof.
     intros st g o H. destruct (select_branch st o) as [Hp Hs _ _|Hp Hs _ _|Hp Hr Hs Hm Hz Hlt|Hp Hr Hs Hm Ha _];
-      unfold ghost_step; rewrite Hp, Hs; try exact H.
+      unfold ghost_step; rewrite Hp, Hs.
+    - exact H.
+    - exact H.
     - (* held *) rewrite Hr.
       destruct (held_has_memory st g H Hz) as [T [ET [H1 [H2 [H3 [H4 [C H5]]]]]]].
       unfold inv. cbn [g_rec_time g_pass_mode g_change_time]. rewrite ET.
